@@ -307,3 +307,111 @@ def c04(ctx):
     ctx.add_mc(r)
     reader_check(ctx, "C04", None, ["reader:sched", "reader:sched_smallcap", "reader:cut"], gen_args=None)
     ctx.rule = "one evaluation = one run; each case holds the reference run (whole input at once) and runs under read schedules (every partition for inputs <= 8 bytes quick / 11 thorough, random otherwise), capacities 0..4096 and temporary EOFs at tag boundaries; relation P_C04 (equal results incl. first error)"
+
+
+# --------------------------------------------------------------------------- writer properties
+def mc_writer(ctx, invariants, maxcalls, opset, props=("DestMonotone",), name="MC_Writer"):
+    r = C.tlc_mc(ctx.prop + "_" + name, "MC_Writer", cfg(constants={"MaxCalls": maxcalls, "OpSet": '"%s"' % opset}, invariants=invariants, properties=props),
+                 workers=12, timeout=3000, heap="12g", coverage=False)
+    ctx.add_mc(r)
+    if r["depth"] < maxcalls + 1:
+        raise C.ToolError("vacuity: MC_Writer did not reach %d calls" % maxcalls)
+    return r
+
+
+def count_wruns(ctx, tf):
+    cur, n = None, 0
+    oc = ctx.extra.setdefault("trace_outcome_coverage", {})
+    with open(tf) as f:
+        for line in f:
+            if '"ev":"wrun"' in line:
+                if cur is not None:
+                    ctx.count(cur, nontrivial=n > 1)
+                cur, n = "", 0
+            elif '"ev":"write"' in line:
+                e = json.loads(line)
+                n += 1
+                cur += json.dumps([e["k"], e["id"], e["val"][:16], e["width"], e["unknown"], len(e["kids"])])
+                key = e["k"] + ":" + e["res"]
+                oc[key] = oc.get(key, 0) + 1
+                if len(ctx.samples) < 5 and n == 3:
+                    ctx.samples.append({k: e[k] for k in ("k", "id", "ty", "width", "unknown", "res", "dest_len")})
+    if cur is not None:
+        ctx.count(cur, nontrivial=n > 1)
+
+
+def writer_check(ctx, mode, drivers, need=()):
+    traces = []
+    for d in drivers:
+        tf = ctx.path(d.replace(":", "_") + ".ndjson")
+        C.run_harness([d, "--out", tf, "--seed", ctx.seed, "--tier", ctx.tier], timeout=3000)
+        traces.append((d, tf))
+        count_wruns(ctx, tf)
+    missing = [k for k in need if ctx.extra.get("trace_outcome_coverage", {}).get(k, 0) == 0]
+    if missing:
+        raise C.ToolError("vacuity: call outcomes never observed in the recorded traces: %s" % missing)
+    jobs = []
+    with concurrent.futures.ThreadPoolExecutor(max_workers=5) as ex:
+        for d, tf in traces:
+            nm = "%s_%s" % (ctx.prop, d.replace(":", "_"))
+            env = {"MODE": mode}
+            env.update({dv: "1" for dv in ctx.known})
+            jobs.append(("verdict", d, tf, ex.submit(C.tlc_trace, nm, "WriterTrace", tf, None, ctx.devs, 3000, "4g", env)))
+            jobs.append(("l1", d, tf, ex.submit(C.tlc_trace, nm + "_L1", "WriterTrace", tf, None, "", 3000, "4g", {"MODE": "L1"})))
+    div = 0
+    for kind, d, tf, fut in jobs:
+        tr = fut.result()
+        if kind == "verdict":
+            ctx.absorb(tr, tf)
+        else:
+            div += len(tr["rejects"])
+            ctx.extra.setdefault("level1_conformance", []).append({"trace": d, "events": tr["states"] - 1, "model_divergence": len(tr["rejects"]), "first": tr["rejects"][:2]})
+    ctx.extra["model_divergence_total"] = div
+    ctx.assumptions += [
+        "verdicts come from the property specification spec/props/P_%s.tla evaluated by TLC on recorded writer calls and strict read-backs (mode %s of trace/WriterTrace.tla); Level 1 (Writer.tla) conformance - result, bytes handed to the destination, open masters and buffer length of every call - is a reported statistic" % (mode if mode not in ("C02",) else "C01", mode),
+        "bounded model MC_Writer: every sequence of <= N calls drawn from ~33 call shapes over schema S3; beyond it trees, presentations, options, sinks and failing calls are sampled (VERIF_SEED)",
+        "the inherently ambiguous encodings (a global element or a raw tag directly after the end of an unknown-size master, C07) are not generated",
+    ]
+
+
+@prop("C01")
+def c01(ctx):
+    mc_writer(ctx, ["Inv_C01", "Inv_C10"], 4, "all")
+    if not ctx.quick:
+        mc_writer(ctx, ["Inv_C01"], 5, "core", name="MC_Writer5")
+    writer_check(ctx, "C01", ["writer:rt"], need=("full:ok", "rawtag:ok", "start:ok"))
+    ctx.rule = "one evaluation = one writer run (a random specification-conformant tree under a random presentation: Start/End, Full, unknown size where EBML makes the end unambiguous, explicit widths, raw tags) followed by the strict read-back of its output; distinct = distinct call sequences; non-trivial = more than one call"
+
+
+@prop("C02")
+def c02(ctx):
+    mc_reader(ctx, "C02", 4 if ctx.quick else 5, "{0}", "Buf_none", "{TRUE}", "Maxes_none", invariants=["TypeOK", "Inv_C02"])
+    writer_check(ctx, "C02", ["writer:fix"])
+    ctx.rule = "one evaluation = one writer run re-writing the tags the real strict reader produced for a stream (independently encoded documents with non-canonical encodings - padded / zero-length integers, 4-byte floats, wide and unknown size fields - and mutated streams the strict reader still accepts), followed by the second read; relation r2 = r1"
+
+
+@prop("C09")
+def c09(ctx):
+    mc_writer(ctx, ["Inv_C09", "Inv_C19"], 4, "all")
+    if not ctx.quick:
+        mc_writer(ctx, ["Inv_C09"], 5, "full", name="MC_Writer5")
+    writer_check(ctx, "C09", ["writer:present"], need=("full:ok", "start_unknown_dep:ok"))
+    ctx.rule = "one evaluation = one writer run; each case presents one document in several ways (all Start/End; every / sampled subsets of masters as Full; deprecated vs option unknown-size call; sinks accepting 1..k bytes or answering Interrupted) or with several size options (widths 1-8, unknown size) with strict read-backs"
+
+
+@prop("C10")
+def c10(ctx):
+    mc_writer(ctx, ["Inv_C10"], 4, "all")
+    if not ctx.quick:
+        mc_writer(ctx, ["Inv_C10"], 5, "core", name="MC_Writer5")
+    writer_check(ctx, "C10", ["writer:calls", "writer:rt", "writer:present"])
+    ctx.rule = "one evaluation = one writer run observed after every call (result, bytes handed to the destination); the monitor P_C10 re-parses the destination with the reader design at every quiescent point"
+
+
+@prop("C19")
+def c19(ctx):
+    mc_writer(ctx, ["Inv_C19", "Inv_C19_Class"], 4, "all")
+    if not ctx.quick:
+        mc_writer(ctx, ["Inv_C19", "Inv_C19_Class"], 5, "full", name="MC_Writer5")
+    writer_check(ctx, "C19", ["writer:calls"], need=("elem:unexpected_tag", "elem:size", "rawtag:id", "end:closing", "full:unexpected_tag", "start:unexpected_tag"))
+    ctx.rule = "one evaluation = one writer run; each case pairs a valid call sequence with failing calls of every kind (tag not allowed here, size not representable in the width, unknown size on a non-master, malformed raw id, End of a non-innermost master, Full with an invalid child / grandchild) inserted at random positions with the sequence without them"
